@@ -48,7 +48,16 @@ func (p Pattern) Glob(cb func(PathInfo) bool) bool {
 		}
 	}
 
-	return glob(segs, dir, cb)
+	// A pattern with more than one ** can match the same path in several
+	// ways; only report each path once.
+	seen := make(map[string]struct{})
+	return glob(segs, dir, func(info PathInfo) bool {
+		if _, ok := seen[info.Path]; ok {
+			return true
+		}
+		seen[info.Path] = struct{}{}
+		return cb(info)
+	})
 }
 
 // isLetter returns true if the byte is an ASCII letter.
